@@ -70,7 +70,7 @@ def run(chk):
                 m = flavors.rotate_matching(nf, qed)
                 mi = flavors.rotate_matching_inverse(nf, qed)
             except Exception as e:
-                chk.fail(f"{tag}.available", f"{type(e).__name__}: {e}", fn=fn, replay=rp)
+                chk.raised(f"{tag}.available", e, fn=fn, replay=rp)
                 continue
             new, old = basis_labels(nf, qed), basis_labels(nf - 1, qed)
             getq = lambda d, k: Q(d[k]) if k in d and not isinstance(d[k], Q) else d.get(k, Q(0))
